@@ -376,6 +376,10 @@ CORPUS = P.get("corpus") or [
     "SELECT a limit, CAST(b AS) FROM t WHERE",
     "SELECT a offset FROM t; SELECT CAST(x AS) FROM",
     "SELECT 1 +; SELECT a limit FROM t",
+    # text handed to a nested parse (the body of a hint comment goes through maybe_parse with its own error level)
+    "SELECT /*+ */ a FROM t",
+    "SELECT /*+ BROADCAST(t) */ a FROM t JOIN",
+    "SELECT /*+ ( */ a FROM",
 ]
 _CTOKS = [_D.tokenize(q) for q in CORPUS]
 
